@@ -116,6 +116,8 @@ pub struct Profile {
     pub stale_events: bool,
     /// keep an always-present well-behaved publisher/subscriber pair (C14)
     pub guarded_pair: bool,
+    /// per-mille chance that a plain subscription comes with a shared twin on the same filter
+    pub twin_pm: u64,
     pub max_connections: usize,
     pub max_outgoing: Vec<u64>,
     pub strategies: Vec<Strategy>,
@@ -198,6 +200,7 @@ pub fn base_profile(name: &'static str) -> Profile {
         raw_events: false,
         stale_events: false,
         guarded_pair: false,
+        twin_pm: 0,
         max_connections: 10,
         max_outgoing: vec![1, 2, 10, 200],
         strategies: vec![Strategy::RoundRobin],
@@ -1403,7 +1406,15 @@ impl History {
             if in_packet || with_held {
                 continue;
             }
-            fs.push((path, qos));
+            fs.push((path.clone(), qos));
+            // a plain and a shared subscription on one filter: the connection is parked twice in one commit log
+            if !shared && !self.actors[a].guarded && !self.actors[a].persistent && self.rng.below(1000) < self.profile.twin_pm {
+                let twin = format!("$share/g-{}/{f}", f.replace(['/', '+', '#'], "_"));
+                let tq = (qos + 1) % 3;
+                if !self.actors[a].held.contains_key(&twin) && !fs.iter().any(|(p, _)| p == &twin) && !self.triggers.group_two_filters {
+                    fs.push((twin, tq));
+                }
+            }
         }
         if !fs.is_empty() {
             self.subscribe(a, &fs, notify_now);
